@@ -64,9 +64,18 @@ TT2C(v) == WAdd3(GG(v[5], v[6], v[7], 0), v[8], SS1Of(v))                       
 TT1C(v) == WAdd3(FF(v[1], v[2], v[3], 0), v[4], WXor(SS1Of(v), WRotl(v[1], 12)))   \* TT1 = TT1C + (W_0 xor W_4)
 P1Arg16(w) == WXor3(w[1], w[8], WRotl(w[14], 15))
 Round0Special(v, w) == SpecialW(WAdd(TT2C(v), w[1])) \/ SpecialW(WAdd(TT1C(v), WXor(w[1], w[5]))) \/ SpecialW(P1Arg16(w))
+\* ---- and a third: does round 1 START with BOTH boolean functions equal to zero (FF_1(A,B,C) = A xor B xor C = 0 and GG_1(E,F,G) = 0)?  A legal state
+\*      (2^-64 per round for random data) that code using 0 as an in-band "no value" marker mistakes for an error.  PlanSM3 solves for it:
+\*      after round 0, A' = TT1, B' = A, C' = B <<< 9, E' = P0(TT2), F' = E, G' = F <<< 19; P0 is a bijection of order 32 (P0^-1 = P0^31). ----
+RECURSIVE P0Pow(_, _)
+P0Pow(x, k) == IF k = 0 THEN x ELSE P0Pow(P0(x), k - 1)
+P0Inv(y) == P0Pow(y, 31)
+ASSUME \A x \in {<<0,1>>, <<\h8000,0>>, <<\h1234,\h5678>>, <<65535,65535>>} : P0(P0Inv(x)) = x /\ P0Inv(P0(x)) = x
+Round1BothZero(v, w) == FF(WAdd(TT1C(v), WXor(w[1], w[5])), v[1], WRotl(v[2], 9), 1) = <<0,0>>
+                        /\ GG(P0(WAdd(TT2C(v), w[1])), v[5], WRotl(v[6], 19), 1) = <<0,0>>
 \* message of 64 bytes (first block) or 128 bytes (second block, chaining value after the first)
-CraftedValue(m) == IF Len(m) = 64 THEN Round0Special(IV, WordsOf(m, 0))
-                   ELSE IF Len(m) = 128 THEN Round0Special(CF(IV, m, 0), WordsOf(m, 64)) ELSE FALSE
+CraftedValue(m) == IF Len(m) = 64 THEN Round0Special(IV, WordsOf(m, 0)) \/ Round1BothZero(IV, WordsOf(m, 0))
+                   ELSE IF Len(m) = 128 THEN Round0Special(CF(IV, m, 0), WordsOf(m, 64)) \/ Round1BothZero(CF(IV, m, 0), WordsOf(m, 64)) ELSE FALSE
 \* ---- padding (standard): bit "1", k zero bits with l+1+k = 448 mod 512, 64-bit length ----
 \* byte level: 0x80, z zero bytes with (len+1+z) = 56 mod 64, eight length bytes.
 \* The length is given as lhi*2^24 + llo (llo < 2^24) so that bit lengths >= 2^32 are expressible in 32-bit TLC integers.
